@@ -302,7 +302,11 @@ _C13_FIRST += [
 ]
 _C13_SECOND = ["[a]\n", "## b\n", "1. x\n", "x", "- a\n+ b\n", "# a\n", "***\n___\n",
                # documents that open with each kind of block on their first line
-               "```text\ncode\n```\n\nMore text.\n", "    code\n", "> q\n", "<div>\n", "[b]: /v\n\n[b]\n", "\n\nx\n", "+ a\n", "### h\n", "a\n===\n"]
+               "```text\ncode\n```\n\nMore text.\n", "    code\n", "> q\n", "<div>\n", "[b]: /v\n\n[b]\n", "\n\nx\n", "+ a\n", "### h\n", "a\n===\n",
+               # documents whose *first element* is what a rule treats specially (MD033 first-image idiom, MD041 first-line HTML heading,
+               # front-matter-like opening, a pragma as the first line)
+               "<h1 align=\"center\"><img src=\"l.png\" alt=\"l\"/></h1>\n\ntext\n", "<h1>t</h1>\n\n## b\n",
+               "---\nt: 1\n---\n\n# a\n", "<!-- pyml disable-next-line md041-->\nx\n"]
 
 
 class C13(_AppSpec):
@@ -340,7 +344,7 @@ class C13(_AppSpec):
                 out.append(self.job("c13", {"sk1": "[a]: /u\n\n# h\n", "holes1": [h], "sk2": "[a]\n", "holes2": [], "mode": "scan"}, budget=150.0))
         else:
             for fi, first in enumerate(_C13_FIRST):
-                for si, second in enumerate(_C13_SECOND):
+                for si, second in enumerate(_C13_SECOND[:16]):  # cells only in the seconds whose enlarged space was run end-to-end
                     if (fi + si) % 3:
                         continue
                     for mode in ("scan", "fix"):
